@@ -420,6 +420,12 @@ class BuiltinsMixin:
             return seqmodel.contains(self, c, x)
         if isinstance(c, SymMap):
             return z3.Select(c.has, to_z3(x))
+        if isinstance(c, SymSet):
+            if pyclass_kind(x) != c.elem_ty:
+                return False
+            return z3.Select(c.has, to_z3(x))
+        if isinstance(c, Obj) and c.tag == "symmap_keys":
+            return self.contains(c.fields["m"], x)
         if isinstance(c, (IterV, GenV)):
             return self.or_(*[self.eq(x, y) for y in self.iterate(c)])
         raise Unsupported(f"`in` on {c!r}")
